@@ -186,7 +186,9 @@ def promote(x, t):
     if t == 'decimal':
         return V('decimal', Fraction(x.v), x.approx)
     if t == 'float':
-        return V('float', f32(to_float_value(x)), x.approx)
+        v = f32(to_float_value(x))
+        inexact = v == v and v not in (math.inf, -math.inf) and Fraction(v) != Fraction(x.v)
+        return V('float', v, x.approx or inexact)
     if t == 'double':
         return V('double', to_float_value(x), x.approx)
     raise ValueError((x, t))
@@ -264,6 +266,8 @@ def arith(op, a, b):
         elif op == 'mod':
             if y == 0:
                 raise XErr('FOAR0001')
+            if approx:
+                raise Undecided('mod of an imprecise value')
             q = trunc_fr(Fraction(x) / Fraction(y))
             r = x - y * q
         else:
@@ -301,8 +305,13 @@ def arith(op, a, b):
         return V('integer', exact)
     else:
         raise ValueError(op)
+    if op == 'mod' and approx:
+        raise Undecided('mod of an imprecise value')
     if t == 'float':
-        r = f32(r)
+        r32 = f32(r)
+        if r32 != r and r == r:
+            approx = True       # implementations that keep xs:float in double precision differ here (see C06)
+        r = r32
     return V(t, r, approx)
 
 
@@ -425,10 +434,11 @@ class Evaluator:
         self.zero_free = False       # the sign of a zero result is implementation-dependent
         self.order_free = False      # fn:distinct-values was used (order / representative are free)
         self.steps = 0
+        self.max_steps = 40000
 
     def eval(self, node, env, focus=None):
         self.steps += 1
-        if self.steps > 200000:
+        if self.steps > self.max_steps:
             raise Undecided('evaluation budget')
         try:
             fn = EVAL[node[0]]
